@@ -4,6 +4,7 @@ package main
 
 import (
 	"fmt"
+	"go/token"
 	"go/types"
 	"strings"
 
@@ -80,6 +81,13 @@ type Exec struct {
 	goalSeq  map[string]int
 	LockHavoc bool // C10 mode: lock() havocs protected state
 	lockHavocHook func(fr *Frame, m Term, bc Term, st State)
+	lockRecv Term  // lock mode: the *stack whose lock is being reasoned about
+	lockCfg  Term  // its configuration record at entry
+	lockMtx  Term  // its mutex at entry
+	acqState State // state right after the lock was acquired (merged over paths)
+	curFr    *Frame
+	curPos   token.Pos
+	curBc    Term
 	safetyTags []string
 }
 
@@ -243,6 +251,9 @@ func (x *Exec) loadAddr(st State, a *Addr) Term {
 }
 
 func (x *Exec) storeAddr(st State, a *Addr, v Term) {
+	if x.LockHavoc && a.Kind != ALocal {
+		x.lockCheck(st, a.Comp, a.Ref)
+	}
 	if a.Kind != ALocal {
 		ref := a.Ref
 		if a.Kind == AGlobal {
